@@ -151,6 +151,17 @@ def gen_case(rng, big=False, reload_p=0.35):
         members = rng.sample(range(nd), k)
         offs = [rng.choice([0, 0, 0, 1000000, 250000000]) for _ in members]
         groups.append({"policy": pol, "members": members, "offsets": offs})
+    # outbound ids over the whole range with boundary bias (multiples of 256/6 where id*6 crosses a byte boundary)
+    pool = [0, 1, 2, 3, 41, 42, 43, 44, 45, 84, 85, 86, 127, 128, 129, 169, 170, 171, 212, 213, 251, 252]
+    used = set()
+    for gi, g in enumerate(groups):
+        while True:
+            r = rng.random()
+            oid = gi + 2 if r < 0.25 else (rng.choice(pool) if r < 0.8 else rng.randint(0, 252))
+            if oid not in used:
+                break
+        used.add(oid)
+        g["oid"] = oid
     tol = rng.choice([0, 0, 1000000, 1000000000])
     ops = []
     target = rng.randint(5, 200 if big else 70)
@@ -238,6 +249,17 @@ def flat_log(entries, cols):
     return out
 
 
+def oid_of(case, gi):
+    o = case["groups"][gi].get("oid")
+    return gi + 2 if o is None else o
+
+
+def kernel_slot(oid, dom):
+    """the slot the kernel reads for (outbound, type): outbound*6 + domain*2 + ipversion (tproxy.c wan_outbound_is_alive);
+    dom = 2*domain + ipversion.  Mirrors spec_slot of coq/C16_Spec.v (checked against the implementation's keys in Coq)."""
+    return oid * 6 + dom
+
+
 def keeps_sets(g):
     return g["policy"] != "fixed"
 
@@ -248,8 +270,10 @@ def is_min(g):
 
 def encode_step(case, st, bits):
     """returns (full list, proj list with log, proj list without log); updates bits (last written values)"""
-    for g, dom, _key, v in st["bits"]:
-        bits[(g, dom)] = v
+    for g, dom, key, v in st["bits"]:
+        bits[(g, dom)] = v              # last value written on behalf of (group, type): compared with the model
+        bits[("slot", key)] = v         # the connectivity array as the kernel sees it (zero-initialised)
+    kview = lambda gi, dom: bits.get(("slot", kernel_slot(oid_of(case, gi), dom)), 0)
     sets = {(s["g"], s["dom"]): s for s in st["sets"]}
     full = []
     for row in st["dialers"]:
@@ -284,9 +308,9 @@ def encode_step(case, st, bits):
             grp += mem
             grpn += mem
             if is_min(g):
-                grp += [bits[(gi, dom)] for dom in range(6)]
-                # normalised: a slot that reads 0 although the set has a member is reported as 1
-                grpn += [1 if (bits[(gi, dom)] or sets[(gi, dom)]["members"]) else 0 for dom in range(6)]
+                # the bit the kernel reads for (group, type), at the slot the property prescribes
+                grp += [kview(gi, dom) for dom in range(6)]
+                grpn += [kview(gi, dom) for dom in range(6)]
     lg = flat_log(st["trans"], (0, 1, 2))
     return full, (alive + lg + grp, alive + lg + grpn), (alive + grp, alive + grpn)
 
@@ -397,7 +421,7 @@ def shrink(sc, binary, case, pred, budget=14):
             return []
         return [i for i in range(len(cands)) if i in errs and pred(errs[i])]
     ops = case["ops"]
-    cands = [dict(case, ops=ops[:k]) for k in range(1, len(ops))]
+    cands = [dict(case, ops=ops[:k]) for k in range(0, len(ops))]
     if cands:
         f = failing(cands, "shp")
         budget -= 1
@@ -406,8 +430,7 @@ def shrink(sc, binary, case, pred, budget=14):
     chunk = max(1, len(case["ops"]) // 2)
     while budget > 0:
         ops = case["ops"]
-        cands = [dict(case, ops=ops[:i] + ops[i + chunk:]) for i in range(0, len(ops), chunk) if len(ops) > chunk or i > 0]
-        cands = [c for c in cands if c["ops"]]
+        cands = [dict(case, ops=ops[:i] + ops[i + chunk:]) for i in range(0, len(ops), chunk)]
         if chunk == 1:
             for gi in range(len(case["groups"])):
                 cands.append(dict(case, groups=case["groups"][:gi] + case["groups"][gi + 1:]))
@@ -438,27 +461,33 @@ def describe(case, res, errs, codes):
     first = min(s for (s, code, _) in errs if code in codes)
     info = {"step": first, "step_numbering": "0 = initial state, k = after the k-th op"}
     bits = {}
-    encode_step(case, res["init"], bits)
-    for k, (op, st) in enumerate(zip(case["ops"], res["steps"]), 1):
+    seq = [(None, res["init"])] + list(zip(case["ops"], res["steps"]))
+    for k, (op, st) in enumerate(seq):
         encode_step(case, st, bits)
         if k != first:
             continue
         sets = {(s["g"], s["dom"]): s for s in st["sets"]}
         info["op"] = op
+        op = op or {"op": "initial state"}
         info["alive_flags"] = {"node%d" % n: [row[IDX[dom]][0] for dom in range(6)] for n, row in enumerate(st["dialers"])}
         info["transition_callbacks"] = st["trans"]
+        info["slot_writes_this_step"] = [{"group": b[0], "outbound_id": oid_of(case, b[0]), "type": DOMS[b[1]], "slot_written": b[2],
+                                          "slot_the_kernel_reads": kernel_slot(oid_of(case, b[0]), b[1]), "value": b[3]} for b in st["bits"]]
         stale, empty = [], []
         for gi, g in enumerate(case["groups"]):
             for dom in range(6):
                 if not keeps_sets(g):
                     continue
                 s = sets[(gi, dom)]
-                if is_min(g) and s["members"] and bits[(gi, dom)] == 0:
-                    stale.append({"group": gi, "type": DOMS[dom], "alive_members": s["members"], "connectivity_slot": 0})
+                kv = bits.get(("slot", kernel_slot(oid_of(case, gi), dom)), 0)
+                want = 1 if (s["members"] or not g["members"]) else 0
+                if is_min(g) and kv != want:
+                    stale.append({"group": gi, "outbound_id": oid_of(case, gi), "type": DOMS[dom], "alive_members": s["members"],
+                                  "slot": kernel_slot(oid_of(case, gi), dom), "slot_value": kv, "expected": want})
                 if g["members"] and not s["members"]:
                     empty.append({"group": gi, "type": DOMS[dom]})
         if stale:
-            info["slot_0_with_alive_member"] = stale
+            info["kernel_slot_disagrees_with_group_health"] = stale
         if op["op"] == "reload":
             info["groups_without_alive_member_after_reload"] = empty
             info["select_strict_finds_node"] = st.get("sel")
